@@ -40,6 +40,7 @@ type Contract struct {
 	Requires    []Clause
 	Ensures     []Clause
 	Loops       map[int]*LoopSpec
+	Accrues     []Clause
 	Modifies    *ModSet
 	modifiesSrc []string
 	Decreases   *Clause
@@ -337,7 +338,44 @@ func (e *Engine) loadContractFile(path string) error {
 				}
 				body = body[:i] + fmt.Sprint(cellsOf(t)) + body[i+j+1:]
 			}
+			for {
+				// @off(T, path): cell offset of the leaf field `path` inside a value of type T
+				i := strings.Index(body, "@off(")
+				if i < 0 {
+					break
+				}
+				j := strings.Index(body[i:], ")")
+				parts := strings.SplitN(body[i+5:i+j], ",", 2)
+				if len(parts) != 2 {
+					return fmt.Errorf("bad @off in specrec %s", sf.Name)
+				}
+				t, err := e.resolveType(pkgPath, strings.TrimSpace(parts[0]))
+				if err != nil {
+					return err
+				}
+				off := -1
+				for _, lf := range layoutOf(t).leaves {
+					if lf.Path == strings.TrimSpace(parts[1]) {
+						off = lf.Off
+					}
+				}
+				if off < 0 {
+					return fmt.Errorf("@off: no leaf %s", parts[1])
+				}
+				body = body[:i] + fmt.Sprint(off) + body[i+j+1:]
+			}
 			e.SpecDefs = append(e.SpecDefs, fmt.Sprintf("(define-fun-rec sf_%s (%s) %s %s)", sf.Name, strings.Join(ps, " "), sf.Ret, body))
+		case "accrues":
+			// accrues <expr over the parameters>: every call adds this amount to the caller's ghost accumulator acc()
+			// (definitional: acc() is the sum of these amounts over the calls made; cost mode only)
+			if cur == nil {
+				return fmt.Errorf("clause outside func: %s", l)
+			}
+			c, err := parseClause(rest)
+			if err != nil {
+				return err
+			}
+			cur.Accrues = append(cur.Accrues, c)
 		case "requires", "ensures", "decreases":
 			if cur == nil {
 				return fmt.Errorf("clause outside func: %s", l)
@@ -1354,17 +1392,14 @@ func init() {
 			if !ok {
 				return SV{}, fmt.Errorf("memf() of non-slice")
 			}
-			id, ok := x.Args[1].(*ast.Ident)
-			if !ok {
-				return SV{}, fmt.Errorf("memf(s, Field)")
-			}
+			path := exprString(x.Args[1]) // Field or Field.Sub
 			for _, lf := range layoutOf(sl.Elem()).leaves {
-				if lf.Path == id.Name {
+				if lf.Path == path {
 					famLeafSort[lf.Arr] = lf.Sort
 					return SV{S: "(Array Int " + lf.Sort + ")", V: Val{C: []string{env.fr.q.get(env.st, lf.Arr)}}}, nil
 				}
 			}
-			return SV{}, fmt.Errorf("memf: no field %s", id.Name)
+			return SV{}, fmt.Errorf("memf: no field %s", path)
 		},
 		"ptr": func(env *SpecEnv, x *ast.CallExpr) (SV, error) {
 			a, err := env.eval(x.Args[0])
@@ -1432,6 +1467,13 @@ func init() {
 				return SV{}, fmt.Errorf("peak() needs cost mode and a receiver with a declared cursor")
 			}
 			return intSV(env.fr.q.get(env.st, "$hw")), nil
+		},
+		// acc(): sum, since function entry, of the amounts the contracts of the called functions declare with `accrues`
+		"acc": func(env *SpecEnv, x *ast.CallExpr) (SV, error) {
+			if env.fr.q.opts == nil || !env.fr.q.opts.Cost {
+				return SV{}, fmt.Errorf("acc() outside cost mode")
+			}
+			return intSV("(- " + env.fr.q.get(env.st, "$acc") + " " + env.fr.q.get(env.old, "$acc") + ")"), nil
 		},
 		"look": func(env *SpecEnv, x *ast.CallExpr) (SV, error) {
 			if env.fr.q.opts == nil || !env.fr.q.opts.Cost || env.fr.q.peakFam == "" {
